@@ -77,7 +77,7 @@ def write_evidence(prop, profile, tier, seed, results, wall, violations, extra=N
         cases.update(r.get("cases") or [])
         events += r.get("events", 0)
         for k, v in (r.get("params") or {}).items():
-            if isinstance(v, (str, int, bool)):
+            if k in ("listing", "capacity", "variant", "junk", "big") and isinstance(v, (str, int, bool)):
                 knobs["%s=%s" % (k, v)] += 1
         knobs["hash_seed=%s" % r.get("hash_seed")] += 1
         if len(samples) < 4 and r.get("steps"):
@@ -217,12 +217,24 @@ def cmd_replay(args):
     pool = None
     try:
         pool = O.Pool(args.repo, 1, hash_seeds=[h])
-        r = pool.call({"profile": doc["profile"], "seed": doc["seed"], "tier": doc.get("tier", "quick"),
-                       "replay": {"params": doc["params"], "steps": doc["steps"]}}, h)
+        req = {"profile": doc["profile"], "seed": doc["seed"], "tier": doc.get("tier", "quick"),
+               "replay": {"params": doc["params"], "steps": doc["steps"]}}
+        r = pool.call(req, h)
         if r.get("harness_error"):
             print("HARNESS-ERROR: " + str(r["harness_error"])[:2000])
             return 2
         v = r.get("violations") or []
+        if not v and doc["expect"]["oracle"].endswith("depends_on_hash_seed"):
+            h2 = int(doc["expect"]["detail"].get("hash_seed_b", 0))
+            pool2 = O.Pool(args.repo, 1, hash_seeds=[h2])
+            try:
+                r2 = pool2.call(req, h2)
+            finally:
+                pool2.close()
+            if r2.get("obslog") != r.get("obslog"):
+                idx = next((i for i, (a, b) in enumerate(zip(r["obslog"], r2["obslog"])) if a != b), None)
+                v = [{"oracle": doc["expect"]["oracle"], "detail": {"hash_seed_a": str(h), "hash_seed_b": str(h2),
+                                                                   "first_differing_call": idx}}]
         if v:
             same = v[0]["oracle"] == doc["expect"]["oracle"]
             print("VIOLATION property=%s replay=%s" % (prop, os.path.abspath(args.file)))
